@@ -629,3 +629,157 @@ def mentions_any(h: ast.AST, words: Iterable[str]) -> bool:
         if isinstance(x, ast.Constant) and isinstance(x.value, str) and x.value in ws:
             return True
     return False
+
+
+# ---------------------------------------------------------------------------
+# round 5: data-shape normalisations (constant-count loops, lists built by append)
+
+
+def unroll_const_loops(fn: ast.AST, limit: int = 8) -> bool:
+    """``for v in range(K)`` (K a small literal) / ``for v in (a, b, c)`` whose body has no break / continue /
+    else is replaced by K copies of the body (``v = i`` / ``v = a`` in front of each when v is used)."""
+    changed = False
+
+    def rec(stmts: List[ast.stmt]):
+        nonlocal changed
+        i = 0
+        while i < len(stmts):
+            s = stmts[i]
+            if isinstance(s, FuncNode + (ast.ClassDef,)):
+                i += 1
+                continue
+            for fld in ("body", "orelse", "finalbody"):
+                sub = getattr(s, fld, None)
+                if isinstance(sub, list) and sub and isinstance(sub[0], ast.stmt):
+                    rec(sub)
+            for hd in getattr(s, "handlers", []) or []:
+                rec(hd.body)
+            if isinstance(s, ast.For) and not s.orelse and isinstance(s.target, ast.Name):
+                items = None
+                it = s.iter
+                if isinstance(it, ast.Call) and isinstance(it.func, ast.Name) and it.func.id == "range" and len(it.args) == 1 and isinstance(it.args[0], ast.Constant) and isinstance(it.args[0].value, int) and 0 < it.args[0].value <= limit:
+                    items = [ast.Constant(value=k) for k in range(it.args[0].value)]
+                elif isinstance(it, (ast.Tuple, ast.List)) and 0 < len(it.elts) <= limit and not any(isinstance(e, ast.Starred) for e in it.elts):
+                    items = list(it.elts)
+                jumps = any(isinstance(x, (ast.Break, ast.Continue)) for b in s.body for x in q.walk_local(b))
+                if items is not None and not jumps:
+                    used = any(isinstance(x, ast.Name) and x.id == s.target.id and isinstance(x.ctx, ast.Load) for b in s.body for x in ast.walk(b))
+                    new: List[ast.stmt] = []
+                    for it_ in items:
+                        if used:
+                            a = ast.Assign(targets=[ast.Name(id=s.target.id, ctx=ast.Store())], value=copy.deepcopy(it_))
+                            new.append(ast.copy_location(a, s))
+                        new.extend(copy.deepcopy(b) for b in s.body)
+                    for n_ in new:
+                        ast.fix_missing_locations(n_)
+                    stmts[i:i + 1] = new
+                    changed = True
+                    i += len(new)
+                    continue
+            i += 1
+
+    rec(fn.body)
+    return changed
+
+
+def fold_appends(fn: ast.AST) -> bool:
+    """In one statement list: ``X = []`` ... ``X.append(e)`` ... (X not otherwise mentioned in between, top level
+    only) becomes ``_appN = e`` at each append and ``X = [_app1, ...]`` after the last one."""
+    changed = False
+    counter = [0]
+
+    def mentions(st, name):
+        return any(isinstance(x, ast.Name) and x.id == name for x in ast.walk(st))
+
+    def rec(stmts: List[ast.stmt]):
+        nonlocal changed
+        i = 0
+        while i < len(stmts):
+            s = stmts[i]
+            if isinstance(s, FuncNode + (ast.ClassDef,)):
+                i += 1
+                continue
+            if isinstance(s, (ast.Assign, ast.AnnAssign)) and isinstance(getattr(s, "value", None), ast.List) and not s.value.elts:
+                tgt = s.targets[0] if isinstance(s, ast.Assign) and len(s.targets) == 1 else getattr(s, "target", None)
+                if isinstance(tgt, ast.Name):
+                    name = tgt.id
+                    temps: List[str] = []
+                    j = i + 1
+                    last_append = None
+                    edits = {}
+                    while j < len(stmts):
+                        t = stmts[j]
+                        is_app = isinstance(t, ast.Expr) and isinstance(t.value, ast.Call) and isinstance(t.value.func, ast.Attribute) and t.value.func.attr == "append" and isinstance(t.value.func.value, ast.Name) \
+                            and t.value.func.value.id == name and len(t.value.args) == 1 and not t.value.keywords and not mentions(t.value.args[0], name)
+                        if is_app:
+                            counter[0] += 1
+                            tmp = "_app%d_%s" % (counter[0], name)
+                            temps.append(tmp)
+                            edits[j] = ast.copy_location(ast.Assign(targets=[ast.Name(id=tmp, ctx=ast.Store())], value=t.value.args[0]), t)
+                            last_append = j
+                        elif mentions(t, name):
+                            break
+                        j += 1
+                    if last_append is not None:
+                        for j_, new in edits.items():
+                            ast.fix_missing_locations(new)
+                            stmts[j_] = new
+                        final = ast.copy_location(ast.Assign(targets=[ast.Name(id=name, ctx=ast.Store())], value=ast.List(elts=[ast.Name(id=t_, ctx=ast.Load()) for t_ in temps], ctx=ast.Load())), stmts[last_append])
+                        ast.fix_missing_locations(final)
+                        stmts.insert(last_append + 1, final)
+                        del stmts[i]
+                        changed = True
+                        continue
+            for fld in ("body", "orelse", "finalbody"):
+                sub = getattr(s, fld, None)
+                if isinstance(sub, list) and sub and isinstance(sub[0], ast.stmt):
+                    rec(sub)
+            for hd in getattr(s, "handlers", []) or []:
+                rec(hd.body)
+            i += 1
+
+    rec(fn.body)
+    return changed
+
+
+def reshaped(repo: Repo, relpath: str, roots: Iterable[str]) -> Repo:
+    """Apply unroll_const_loops + fold_appends to the named functions (qualified names)."""
+    if not relpath.startswith("tornado/"):
+        relpath = "tornado/" + relpath
+    mod = repo.modules.get(relpath)
+    if mod is None:
+        return repo
+    roots = set(roots)
+    # cheap pre-check on the original tree
+    def targets(tree):
+        for st in tree.body:
+            if isinstance(st, FuncNode) and st.name in roots:
+                yield st
+            elif isinstance(st, ast.ClassDef):
+                for s2 in st.body:
+                    if isinstance(s2, FuncNode) and (st.name + "." + s2.name) in roots:
+                        yield s2
+
+    def unrollable(x):
+        return isinstance(x, ast.For) and ((isinstance(x.iter, ast.Call) and isinstance(x.iter.func, ast.Name) and x.iter.func.id == "range" and len(x.iter.args) == 1 and isinstance(x.iter.args[0], ast.Constant))
+                                           or isinstance(x.iter, (ast.Tuple, ast.List)))
+
+    if not any(unrollable(x) for f in targets(mod.tree) for x in ast.walk(f)):
+        return repo
+    tree = copy.deepcopy(mod.tree)
+    changed = False
+    for f in targets(tree):
+        if unroll_const_loops(f):
+            changed = True
+            fold_appends(f)
+    if not changed:
+        return repo
+    ast.fix_missing_locations(tree)
+    try:
+        compile(tree, relpath, "exec")
+    except Exception:
+        return repo
+    r = repo.with_module(relpath, tree=tree)
+    if hasattr(repo, "inlined_helpers"):
+        r.inlined_helpers = repo.inlined_helpers  # type: ignore[attr-defined]
+    return r
